@@ -17,9 +17,13 @@
     dictcomp <projection>                Py2Cpp.on_dict_comp    → ok <key> <value>
     dany <deco> <path,…> | danyargs <deco> <subject>   DecoratorHelper.any / any_args → ok true|false
     qany <deco,…> <path,…> | qanyargs <deco,…> <subject> | qcontains <deco,…> <path,…>   DecoratorQuery
+    iql <string> <quote>                 is_quoted_literal      → ok true|false
+    vorigin <var_type>                   Param(var_type, …).var_type_origin → ok <hex> | TypeError
+    format <text> <brackets> <delimiter> parse_to_formatter(…).format()     → ok <hex> | <error>
 -/
 import Tranp.Driver.Common
 import Tranp.Model.Block
+import Tranp.Model.BlockView
 
 namespace Tranp.Driver.Block
 open Tranp Tranp.Block Tranp.Driver
@@ -185,6 +189,24 @@ def step (_ : Unit) : List String → Unit × String
       | .ok b => ((), s!"ok {b}")
       | .error e => ((), err e)
     | _, _ => ((), "bad-op")
+  | ["iql", t, q] =>
+    match unhex? t, unhex? q with
+    | some t, some q => match isQuotedLiteral t q with
+      | .ok b => ((), s!"ok {b}")
+      | .error e => ((), err e)
+    | _, _ => ((), "bad-op")
+  | ["vorigin", t] =>
+    match unhex? t with
+    | some t => match varTypeOrigin t with
+      | .ok r => ((), s!"ok {Str.hex r}")
+      | .error e => ((), e.toString)
+    | none => ((), "bad-op")
+  | ["format", t, b, d] =>
+    match unhex? t, unhex? b, unhex? d with
+    | some t, some b, some d => match parseToFormatterFormat t b d with
+      | .ok r => ((), s!"ok {Str.hex r}")
+      | .error e => ((), err e)
+    | _, _, _ => ((), "bad-op")
   | _ => ((), "bad-op")
 
 def run : IO Unit := runFamily step ()
